@@ -34,13 +34,23 @@ var ctxAliasFields = map[string]bool{"buffer": true, "data": true, "value": true
 // varKey identifies a variable: a single-assignment register (canonical) or a
 // local cell.
 func (p *Prog) varKey(v ssa.Value) interface{} {
-	v = unwrap(v)
-	if u, ok := v.(*ssa.UnOp); ok && u.Op == token.MUL {
-		if cell := p.localCell(u.X); cell != nil {
+	for i := 0; i < 8; i++ {
+		v = unwrap(v)
+		u, ok := v.(*ssa.UnOp)
+		if !ok || u.Op != token.MUL {
+			break
+		}
+		cell := p.localCell(u.X)
+		if cell == nil {
+			break
+		}
+		st := p.storesToCell(cell)
+		if len(st) != 1 {
 			return cell
 		}
+		v = st[0] // single-assignment variable: identify it with its value
 	}
-	return p.canon(v)
+	return v
 }
 
 type releaseSite struct {
@@ -557,7 +567,7 @@ func (p *Prog) escapingClosures(fn *ssa.Function, key interface{}) []*ssa.MakeCl
 			if cell := p.localCell(b); cell != nil && interface{}(cell) == key {
 				captures = true
 			}
-			if p.varKey(b) == key {
+			if p.varKey(b) == key || p.varKeyOfBinding(b) == key {
 				captures = true
 			}
 		}
@@ -648,6 +658,9 @@ func ruleUseAfterRelease(c *Check, a *Analysis, rule string, scope uarScope) {
 						return true
 					}
 				}
+				if kv, ok := key.(ssa.Value); ok && redefines(p, in, kv) {
+					return true
+				}
 				return false
 			})
 			if found {
@@ -676,13 +689,24 @@ func ruleUseAfterRelease(c *Check, a *Analysis, rule string, scope uarScope) {
 				if !p.closureTouches(mc, key) {
 					continue
 				}
+				// does the closure (transitively) release the object?
+				releasesContext := false
+				for _, f := range withClosures(mc.Fn.(*ssa.Function)) {
+					for _, r3 := range rel.sitesIn(f) {
+						if p.varKey(r3.Res) == key && r3.Kind.Name != resUpgrade.Name {
+							releasesContext = true
+						}
+					}
+				}
 				var why string
 				w, tr, found := p.reachFrom(fn, mc, func(in ssa.Instruction) bool {
 					if _, ok := in.(*ssa.DebugRef); ok {
 						return false
 					}
+					isSite := false
 					for _, r2 := range sites {
 						if r2.Instr == in && p.varKey(r2.Res) == key {
+							isSite = true
 							if len(r2.Guards) > 0 && contradicts(r2.Guards, p.factGuards(p.curFacts, key)) {
 								continue // the callee's release cannot execute on this path
 							}
@@ -693,12 +717,30 @@ func ruleUseAfterRelease(c *Check, a *Analysis, rule string, scope uarScope) {
 							return true
 						}
 					}
+					if isSite || !releasesContext {
+						return false
+					}
+					// the closure owns (and will release) the object: the scheduling
+					// function must not read it any more
+					if fa, ok := in.(*ssa.FieldAddr); ok {
+						if _, uses := p.usesVar(in, key); uses && fa.Referrers() != nil {
+							for _, r := range *fa.Referrers() {
+								if u, ok := r.(*ssa.UnOp); ok && u.Op == token.MUL {
+									why = "read (" + strings.TrimSpace(in.String()) + ")"
+									return true
+								}
+							}
+						}
+					}
 					return false
 				}, func(in ssa.Instruction) bool {
 					if st, ok := in.(*ssa.Store); ok {
 						if cell := p.localCell(st.Addr); cell != nil && interface{}(cell) == key {
 							return true
 						}
+					}
+					if kv, ok := key.(ssa.Value); ok && redefines(p, in, kv) {
+						return true
 					}
 					return false
 				})
